@@ -69,7 +69,8 @@ def solve_history():
 
 def stop_ops():
     return st.lists(st.one_of(
-        st.fixed_dictionaries(dict(op=st.just('insert'), s=sel, stop=st.booleans())),
+        st.fixed_dictionaries(dict(op=st.just('insert'), s=sel, stop=st.booleans(),
+                                   form=st.sampled_from(['keywords', 'keywords', 'object']))),
         st.fixed_dictionaries(dict(op=st.just('remove'), s=sel)),
         st.fixed_dictionaries(dict(op=st.just('add_wavelength'), v=f(0.45, 0.70), prim=st.booleans(),
                                    unit=st.just('um')))), min_size=1, max_size=10)
@@ -431,7 +432,16 @@ class C01(Check):
             n = o.surface_group.num_surfaces
             if op['op'] == 'insert':
                 idx = 1 + op['s'] % (n - 1)
-                o.add_surface(index=idx, radius=np.inf, thickness=0.0, is_stop=op['stop'])
+                if op.get('form', 'keywords') == 'object':
+                    # the other documented argument form: a ready-made Surface object
+                    from optiland.optic import Optic
+                    tmp = Optic()
+                    tmp.add_surface(index=0, radius=np.inf, thickness=1.0)
+                    tmp.add_surface(index=1, radius=np.inf, thickness=0.0, is_stop=op['stop'])
+                    o.add_surface(new_surface=tmp.surface_group.surfaces[1], index=idx)
+                    out.cls('surface_object_inserted')
+                else:
+                    o.add_surface(index=idx, radius=np.inf, thickness=0.0, is_stop=op['stop'])
             elif op['op'] == 'remove':
                 if n <= 3:
                     continue
